@@ -37,3 +37,10 @@ Theorem C08_run_on_schedules_is_improving_path :
     run schedule ls_obj (ls_neighbors nw) pick fuel s = (r, steps, fin) -> improving_path nw s r.
 Proof. exact run_is_improving_path. Qed.
 Print Assumptions C08_run_on_schedules_is_improving_path.
+
+(** "The search stops only at a schedule it cannot improve further": whether a strictly better neighbour exists does not
+    depend on the last accepted swap, although the enumeration order does (provider rotation after a PathExchange) *)
+From RS Require Import Schedule Swaps SwapsRot SwapsRotFacts.
+Theorem C08_local_optimality_independent_of_last_swap : forall nw, stmt_rotation_keeps_improving_neighbours nw.
+Proof. exact rotation_keeps_improving_neighbours. Qed.
+Print Assumptions C08_local_optimality_independent_of_last_swap.
